@@ -275,6 +275,12 @@ def canon(e, env):
             return '%s(%s)' % (e['method'], ', '.join(sorted([canon(e['ch'][0], env), args_[0]])))
         if e['method'] == 'unwrap_or_else' and len(args_) == 1 and args_[0] in ('IsNone::none', '|| NULL', 'NULL'):
             return '%s.unwrap_or(NULL)' % canon(e['ch'][0], env)
+        # a default that is a pure nullary constructor: lazily or eagerly evaluated, the same value
+        if e['method'] == 'unwrap_or_else' and len(args_) == 1 and \
+                args_[0] in ('Zero::zero', 'One::one', 'Default::default', '|| Zero::zero()', '|| One::one()',
+                             '|| Default::default()'):
+            return '%s.unwrap_or(%s)' % (canon(e['ch'][0], env), args_[0].replace('|| ', '') if args_[0].startswith('||')
+                                         else args_[0] + '()')
         return '%s.%s(%s)' % (canon(e['ch'][0], env), e['method'], ', '.join(args_))
     if k == 'Call':
         c = e['ch'][0]
@@ -368,6 +374,14 @@ def canon(e, env):
             return 'IsNone::not_none'          # eta: |x| x.not_none()
         if len(names) == 1 and body_ == '!VALID(%s)' % names[0]:
             return 'IsNone::is_none'
+        # eta: |a| F(a) is the path F (a function or constructor named by path)
+        b0_ = peel(e['ch'][0])
+        while b0_.get('k') == 'Block' and not b0_.get('stmts') and 'expr' in b0_:
+            b0_ = peel(b0_['expr'])
+        if len(names) == 1 and b0_.get('k') == 'Call' and len(b0_['ch']) == 2 and \
+                e['params'][0].get('k') == 'Binding' and peel(b0_['ch'][0]).get('res') != 'local' and \
+                peel(b0_['ch'][1]).get('k') == 'Path' and peel(b0_['ch'][1]).get('local') == e['params'][0].get('local'):
+            return canon(b0_['ch'][0], env)
         # eta: |a, b| a.m(b) is the path Trait::m
         b_ = peel(e['ch'][0])
         while b_.get('k') == 'Block' and not b_.get('stmts') and 'expr' in b_:
@@ -813,7 +827,8 @@ def _paths(e, env=None, conds=frozenset(), effects=()):
                             if p_.get('k') == 'Binding':
                                 bind(p_, v_)
                     elif s['pat'].get('k') == 'Tuple' and \
-                            all(q.get('k') in ('Binding', 'Wild') for q in s['pat']['ch']):
+                            all(q.get('k') in ('Binding', 'Wild') or (q.get('k') == 'Tuple' and not q.get('ch'))
+                                for q in s['pat']['ch']):
                         # opaque tuple value: components by projection (of a kept name unless
                         # the value is a plain immutable one)
                         c = canon(init, en)
